@@ -44,6 +44,15 @@ import Bng.Model.Dhcp4
   circuit-id shared by two MACs is finding D9 of C02: the index then aliases two leases), so the circuit-id index
   `leasesByCircuitID` never changes which lease a handler finds and is not modelled; QoS policy and NAT pool never
   refuse; the accounting server answers every request; RADIUS authentication is off.
+
+  Failing map operations.  `Op.fault` keeps a kernel map FULL (a Put of a NEW key fails, updates of existing keys and
+  deletes work): QoS egress / ingress, subscriber_nat, and the three cache maps the server writes (subscriber_pools,
+  circuit_id_map, circuit_id_subscribers).  handleRequest only logs a failed install, so a session can live with a
+  PARTIAL cache set (`putK`); every termination deletes every key all the same (a missing key is not an error).
+  `OpX.wfault` write-protects a cache map: EVERY write through the Loader's handle fails, Put and Delete alike
+  (`State.ro`, `putK`/`delK`).  A failed Delete is only logged by handleRelease and ignored by
+  removeFromFastPathCache and by the renewal that drops the old circuit-id's entries: the entry outlives the session
+  (finding KF-cache-delete-ignored).  `ro = []` in every history of `Op`.
   Core Lean only.
 -/
 namespace Bng.DhcpTerm
@@ -84,6 +93,13 @@ structure State where
   fullE  : Bool := false
   fullI  : Bool := false
   fullN  : Bool := false
+  /-- the same for the cache maps: subscriber_pools / circuit_id_map (hash → MAC) / circuit_id_subscribers -/
+  fullS  : Bool := false
+  fullH  : Bool := false
+  fullC  : Bool := false
+  /-- cache maps whose handle is write-protected: every Put AND every Delete through the Loader fails
+      (3 = subscriber_pools, 4 = circuit_id_map, 5 = circuit_id_subscribers); only `OpX.wfault` changes it -/
+  ro     : List Nat := []
   nat    : List Nat := []             -- addresses with a NAT allocation
   kMac   : List Nat := []             -- subscriber_pools keys
   kVlan  : List (Nat × Nat) := []     -- vlan_subscriber_pools keys (never written by pkg/dhcp)
@@ -123,6 +139,28 @@ theorem mem_ins {α : Type} [DecidableEq α] (l : List α) (x y : α) : y ∈ in
       · exact Or.inl e
       · exact Or.inr ⟨h, e⟩
 
+/-! ### writes into a kernel hash map that can fail -/
+
+/-- Put: fails (nothing changes) when the handle is write-protected, or when the map has no free slot and the key is new -/
+def putK {α : Type} [DecidableEq α] (ro full : Bool) (l : List α) (x : α) : List α :=
+  if ro || (full && !(l.contains x)) then l else ins l x
+
+/-- Delete: fails (nothing changes) when the handle is write-protected -/
+def delK {α : Type} [DecidableEq α] (ro : Bool) (l : List α) (x : α) : List α := if ro then l else rm l x
+
+theorem mem_putK {α : Type} [DecidableEq α] (ro full : Bool) (l : List α) (x y : α) :
+    y ∈ putK ro full l x → y = x ∨ y ∈ l := by
+  unfold putK
+  split
+  · exact Or.inr
+  · exact (mem_ins l x y).mp
+
+theorem delK_false {α : Type} [DecidableEq α] (l : List α) (x : α) : delK false l x = rm l x := rfl
+
+def State.roS (s : State) : Bool := s.ro.contains 3
+def State.roH (s : State) : Bool := s.ro.contains 4
+def State.roC (s : State) : Bool := s.ro.contains 5
+
 /-! ### accounting -/
 
 def addStart (a : AMap Nat Sess) (k mac : Nat) : AMap Nat Sess :=
@@ -150,14 +188,18 @@ def sessionEnd (s : State) (mac : Nat) (l : Lease) : State :=
     has tags (never), both circuit-id entries when the lease has a circuit-id -/
 def uncache (s : State) (mac : Nat) (l : Lease) : State :=
   match l.cid with
-  | some c => { s with kMac := rm s.kMac mac, kCid := rm s.kCid (mac, c), kHash := rm s.kHash (mac, c) }
-  | none => { s with kMac := rm s.kMac mac }
+  | some c => { s with kMac := delK s.roS s.kMac mac, kCid := delK s.roC s.kCid (mac, c), kHash := delK s.roH s.kHash (mac, c) }
+  | none => { s with kMac := delK s.roS s.kMac mac }
 
-/-- updateFastPathCache + AddCircuitIDMapping + AddCircuitIDSubscriber -/
-def cache (s : State) (mac : Nat) (cid : Option Nat) : State :=
+/-- updateFastPathCache (AddSubscriber) + AddCircuitIDMapping + AddCircuitIDSubscriber: three Puts, each of which can
+    fail on its own (handleRequest logs the error and goes on); `fS fH fC`: the map has no free slot at that moment -/
+def cacheF (fS fH fC : Bool) (s : State) (mac : Nat) (cid : Option Nat) : State :=
   match cid with
-  | some c => { s with kMac := ins s.kMac mac, kCid := ins s.kCid (mac, c), kHash := ins s.kHash (mac, c) }
-  | none => { s with kMac := ins s.kMac mac }
+  | some c => { s with kMac := putK s.roS fS s.kMac mac, kCid := putK s.roC fC s.kCid (mac, c),
+                       kHash := putK s.roH fH s.kHash (mac, c) }
+  | none => { s with kMac := putK s.roS fS s.kMac mac }
+
+def cache (s : State) (mac : Nat) (cid : Option Nat) : State := cacheF s.fullS s.fullH s.fullC s mac cid
 
 inductive Reply where
   | offer (ip : Nat)
@@ -182,8 +224,14 @@ def discover (s : State) (mac : Nat) : State × Reply :=
     is "stale" in the sense of the code whenever circuit-ids are private to a MAC) -/
 def dropStale (s : State) (mac : Nat) (old new : Option Nat) : State :=
   match old with
-  | some oc => if some oc ≠ new then { s with kCid := rm s.kCid (mac, oc), kHash := rm s.kHash (mac, oc) } else s
+  | some oc => if some oc ≠ new then { s with kCid := delK s.roC s.kCid (mac, oc), kHash := delK s.roH s.kHash (mac, oc) } else s
   | none => s
+
+/-- the cache writes of a renewal: the old circuit-id's entries go, then the three Puts.  A Delete that removed an
+    entry leaves a free slot in a full map for the Put that follows in the same call. -/
+def recache (s : State) (mac : Nat) (old new : Option Nat) : State :=
+  let s1 := dropStale s mac old new
+  cacheF s.fullS (s.fullH && s1.kHash.length == s.kHash.length) (s.fullC && s1.kCid.length == s.kCid.length) s1 mac new
 
 /-- the circuit-id the renewed lease carries: the request's, else the stored one -/
 def keepCid (cid old : Option Nat) : Option Nat :=
@@ -196,7 +244,7 @@ def renew (s : State) (mac : Nat) (l : Lease) (r : Nat) (cid : Option Nat) : Sta
   if l.ip ≠ r then (s, .nak)
   else
     let nl : Lease := { ip := r, exp := s.now + s.cfg.leaseTime, cid := keepCid cid l.cid, sess := l.sess }
-    (cache (dropStale { s with leases := AMap.insert s.leases mac nl } mac l.cid nl.cid) mac nl.cid, .ack r)
+    (recache { s with leases := AMap.insert s.leases mac nl } mac l.cid nl.cid, .ack r)
 
 /-- qosMgr.SetSubscriberPolicy → SetSubscriberQoS: egress Put, then ingress Put, then the manager's table; an error
     (map full) returns at once and handleRequest only logs it - the session goes on with what was written -/
@@ -333,12 +381,16 @@ inductive Op where
       then the tail of `first` -/
   | split (first second : Term)
   | shutdown
-  /-- fault injection: which = 0 QoS egress map, 1 QoS ingress map, 2 subscriber_nat: full (on) / as created (off) -/
+  /-- fault injection: which = 0 QoS egress map, 1 QoS ingress map, 2 subscriber_nat, 3 subscriber_pools,
+      4 circuit_id_map, 5 circuit_id_subscribers: full (on) / as created (off); any other number (6 =
+      vlan_subscriber_pools, which pkg/dhcp never writes) changes nothing -/
   | fault (which : Nat) (on : Bool)
   deriving Repr, DecidableEq
 
 def setFault (s : State) (which : Nat) (on : Bool) : State :=
-  if which = 0 then { s with fullE := on } else if which = 1 then { s with fullI := on } else { s with fullN := on }
+  if which = 0 then { s with fullE := on } else if which = 1 then { s with fullI := on }
+  else if which = 2 then { s with fullN := on } else if which = 3 then { s with fullS := on }
+  else if which = 4 then { s with fullH := on } else if which = 5 then { s with fullC := on } else s
 
 def gap (s : State) (order : List Nat) (inner : Term) : State × Bool :=
   let ex := expiredList s order
@@ -403,7 +455,7 @@ def requestBegin (s : State) (mac r : Nat) (cid : Option Nat) : State × Option 
 /-- the rest of handleRequest, run without any lock and without looking at the lease table again -/
 def requestFinish (s : State) (mac : Nat) (p : Pending) : State :=
   match p.old with
-  | some l => cache (dropStale s mac l.cid p.nl.cid) mac p.nl.cid
+  | some l => recache s mac l.cid p.nl.cid
   | none =>
     let s1 := cache s mac p.nl.cid
     { natInstall (qosInstall s1 p.nl.ip) p.nl.ip with acct := if s.radius then addStart s1.acct p.nl.sess mac else s1.acct, nextSess := if s.radius then s.nextSess + 1 else s.nextSess, early := if s.radius && (AMap.lookup s1.acct p.nl.sess).isSome then p.nl.sess :: s1.early else s1.early }
@@ -450,7 +502,13 @@ inductive OpX where
   /-- DISCOVER with the relay's circuit-id (it matters only when the index holds a stale entry) -/
   | disc (mac : Nat) (cid : Option Nat)
   | estGap (mac ip : Nat) (cid : Option Nat) (inner : Term)
+  /-- fault injection: the Loader's handle of cache map `which` (3 subscriber_pools, 4 circuit_id_map,
+      5 circuit_id_subscribers) is write-protected (on) / as created (off) -/
+  | wfault (which : Nat) (on : Bool)
   deriving Repr, DecidableEq
+
+def setRo (s : State) (which : Nat) (on : Bool) : State :=
+  { s with ro := if on then ins s.ro which else rm s.ro which }
 
 def stepX (s : State) : OpX → State × Reply
   | .op (.req m r cid) =>
@@ -463,6 +521,7 @@ def stepX (s : State) : OpX → State × Reply
     | some l => if s.now < l.exp then (s, .offer l.ip) else discover s m
     | none => discover s m
   | .estGap m ip cid inner => let (s', rp, _) := estGap s m ip cid inner; (fixStale s', rp)
+  | .wfault w on => (fixStale (setRo s w on), .none)
 
 def runX (s : State) (ops : List OpX) : State := ops.foldl (fun st o => (stepX st o).1) s
 
